@@ -18,12 +18,18 @@ W == [s \in AllScripts |->
           [] s = "groups" -> {"feedback", "tooldata"}
           [] s = "tifa_types" -> {"feedback", "tooldata", "builtin_modules"}
           [] OTHER -> {"feedback", "tooldata"}]
+AllSubs == {"ok", "crash", "mathmut", "syntax", "unused", "parts", "mathy", "attrassign", "attrlit", "methodcall"}
+\* submissions whose analysis writes / reads the method tables of TIFA's value types
+SW == [s \in AllSubs |-> IF s \in {"attrassign", "attrlit"} THEN {"type_tables"} ELSE {}]
+SR == [s \in AllSubs |-> IF s = "methodcall" THEN {"type_tables"} ELSE {}]
 \* every grading resolves and renders feedback, so it reads everything that influences the result
 R == [s \in AllScripts |-> Slots \ {"class_hooks"}]
 \* Report.clear(): feedback lists, suppressions, hiddens, tool data (hence the sandbox instance with its mocks and
 \* tracer, the Source tool's sections), hooks, formatter, overridden class attributes, and (since the repair) pools;
 \* TIFA's reset rebuilds the builtin module types.
 CodeClearResets == {"feedback", "suppressions", "hiddens", "hooks", "tooldata", "formatter", "overrides",
-                    "sandbox_mocks", "tracer", "sections", "builtin_modules", "pools"}
+                    "sandbox_mocks", "tracer", "sections", "builtin_modules", "pools",
+                    "type_tables"}     \* every type VALUE copies its class' method table (Type.__init__), so nothing outlives the analysis
 PinnedClearResets == CodeClearResets \ {"pools"}
+SharedTables == CodeClearResets \ {"type_tables"}
 =============================================================================
